@@ -5,7 +5,7 @@
     are Model/Pred.v (tied to the Go code by the correspondence run).
     [FR x] is the real number the float64 [x] denotes; [detR a b c] the exact determinant. *)
 From Coq Require Import ZArith Reals Floats Bool.
-From Geo Require Import Base.GoPrim Base.F64 Base.Exact Gen.R3 Gen.S2Pred Model.Pred Proofs.C02_Exact Proofs.C02_Float Proofs.C02_SoS Proofs.C02_SoSGlobal Proofs.C02_RelErr Proofs.C02_TriageDet Proofs.C02_StableDet Proofs.C02_Robust Proofs.C02_IsUnit.
+From Geo Require Import Base.GoPrim Base.F64 Base.Exact Gen.R3 Gen.S2Pred Model.Pred Proofs.C02_Exact Proofs.C02_Float Proofs.C02_SoS Proofs.C02_SoSGlobal Proofs.C02_RelErr Proofs.C02_TriageDet Proofs.C02_StableDet Proofs.C02_Robust Proofs.C02_IsUnit Proofs.C02_DistRefuted.
 Local Open Scope R_scope.
 
 (** exact stage ------------------------------------------------------------------------- *)
@@ -159,24 +159,37 @@ Theorem robust_sign_swap_negates : forall a b c,
 Proof. exact robust_sign_swap. Qed.
 Print Assumptions robust_sign_swap_negates.
 
+(** FINDING (KNOWN_FINDINGS.jsonl kind CompareDistances.notNormalized). With "unit length" read as
+    the library's r3.Vector.IsUnit (5e-14), the sentence "CompareDistances returns the exact
+    comparison of the true spherical distances" is FALSE of the unchanged code: *)
+Theorem compare_distances_exact_on_isunit_points_refuted : exists x a b,
+  r3_Vector_IsUnit (s2_Point_Vector x) = true /\ r3_Vector_IsUnit (s2_Point_Vector a) = true /\
+  r3_Vector_IsUnit (s2_Point_Vector b) = true /\
+  unit_pt x /\ unit_pt a /\ unit_pt b /\
+  cmp_distances_R x a b <> 0%Z /\ compare_distances x a b <> cmp_distances_R x a b.
+Proof. exact compare_distances_isunit_refuted. Qed.
+Print Assumptions compare_distances_exact_on_isunit_points_refuted.
+
+(** What holds, under the float hypotheses, is the statement for NORMALIZED points
+    ([norm_pt]: | |p|^2 - 1 | <= 2^-50, what Normalize leaves): *)
 Theorem compare_distances_is_exact_comparison : H_TRIAGE_COS -> H_TRIAGE_SIN2 -> forall x a b,
-  unit_pt x -> unit_pt a -> unit_pt b -> cmp_distances_R x a b <> 0%Z ->
+  norm_pt x -> norm_pt a -> norm_pt b -> cmp_distances_R x a b <> 0%Z ->
   compare_distances x a b = cmp_distances_R x a b.
 Proof. exact compare_distances_exact. Qed.
 Print Assumptions compare_distances_is_exact_comparison.
 
 Theorem compare_distances_antisymmetric : H_TRIAGE_COS -> H_TRIAGE_SIN2 -> forall x a b,
-  unit_pt x -> unit_pt a -> unit_pt b -> compare_distances x b a = (- compare_distances x a b)%Z.
+  norm_pt x -> norm_pt a -> norm_pt b -> compare_distances x b a = (- compare_distances x a b)%Z.
 Proof. exact compare_distances_antisym. Qed.
 Print Assumptions compare_distances_antisymmetric.
 
 Theorem compare_distances_zero_iff_same_point : H_TRIAGE_COS -> H_TRIAGE_SIN2 -> forall x a b,
-  unit_pt x -> unit_pt a -> unit_pt b -> (compare_distances x a b = 0%Z <-> s2_Point_eqb a b = true).
+  norm_pt x -> norm_pt a -> norm_pt b -> (compare_distances x a b = 0%Z <-> s2_Point_eqb a b = true).
 Proof. exact compare_distances_zero_iff. Qed.
 Print Assumptions compare_distances_zero_iff_same_point.
 
 Theorem compare_distance_is_exact_comparison : H_TRIAGE_COS1 -> H_TRIAGE_SIN21 -> forall x y r,
-  unit_pt x -> unit_pt y -> valid_limit r -> compare_distance x y r = cmp_distance_R x y r.
+  norm_pt x -> norm_pt y -> valid_limit r -> compare_distance x y r = cmp_distance_R x y r.
 Proof. exact compare_distance_spec. Qed.
 Print Assumptions compare_distance_is_exact_comparison.
 
